@@ -33,12 +33,29 @@
    The discipline is a computable predicate; the correspondence run checks that every call sequence the harness
    drives through the real Tracer satisfies it and that the real Tracer's answers equal the specification's
    (c2ok_spec), besides comparing them with the tracer model.
-   PARTIAL: composition ACROSS nodes (a workflow is a graph of such nodes joined by writers and readers that are
-   in-order and exactly-once by C01) is not a Coq theorem; it is compared exactly with the implementation: real
-   OneToOne / OneToMany / ManyToOne nodes in chains, fan-out, diamonds and fan-in with actions held open and
-   released in random order, every source answer checked against a reference evaluation of the workflow. *)
+   ACROSS NODES (Node/Network.v): an acyclic network (nodes numbered so that every link goes from a smaller to a
+   larger number) of nodes that each behave like the specification - a request is answered when it is the oldest
+   of its node and its row is complete, with the join of the row or the node's own result when nothing was
+   derived - joined by links that deliver in order (what C01 gives), any number of requests in flight, the steps
+   of all nodes interleaved arbitrarily:
+   - C02_network_once_in_order: at every node, in every reachable state, the ids that arrived are the ids answered
+     followed by the ids pending, without repetition (answered at most once, in arrival order);
+   - C02_network_justified: every answer ever given is its node's own result (nothing derived) or the join of
+     the answers that the packets derived from the request had received EARLIER - so the answers do not depend
+     on the schedule: they are the recursive evaluation over the derivation tree, which is what the harness's
+     reference evaluation of a workflow computes;
+   - C02_network_no_deadlock: while anything is pending some node can finish an action or answer (acyclicity is
+     used here); C02_network_quiescent: a network that cannot move has answered everything it received, exactly
+     once and in order.
+   PARTIAL: that the real nodes joined by real ports ARE such a network is argued per component (the tracer refines
+   the specification; the node loops keep the discipline; writers and readers are in-order and exactly-once by
+   C01) and compared exactly with the implementation as a whole: real OneToOne / OneToMany / ManyToOne nodes in
+   chains, fan-out, diamonds and fan-in with actions held open and released in random order, every source answer
+   checked against the reference evaluation of the workflow.  The network model itself is not run against the
+   implementation. *)
 From Coq Require Import List Arith NArith ZArith Bool.
 From Uf Require Import Packet.Writer Node.Tracer Node.TracerProofs Node.Spec Node.Refine Node.Loops.
+From Uf Require Node.Network.
 Import ListNotations.
 
 Theorem C02_exactly_once_in_order : forall ops r,
@@ -140,3 +157,46 @@ Proof.
     apply ex_done. repeat constructor.
   - vm_compute. reflexivity.
 Qed.
+
+(* ---- across nodes ---- *)
+Theorem C02_network_once_in_order : forall (ans : Type) (join : list ans -> ans) (N : nat) ls n,
+  let st := Network.run ans join N ls in
+  Network.n_arr ans st n = Network.n_done ans st n ++ map (Network.q_id ans) (Network.n_q ans st n) /\ NoDup (Network.n_arr ans st n).
+Proof. exact Network.answered_once_in_order. Qed.
+Print Assumptions C02_network_once_in_order.
+
+Theorem C02_network_justified : forall (ans : Type) (join : list ans -> ans) (N : nat) ls,
+  Network.ans_ok ans join (Network.n_der ans (Network.run ans join N ls)) (Network.n_ans ans (Network.run ans join N ls)).
+Proof. exact Network.answers_justified. Qed.
+Print Assumptions C02_network_justified.
+
+Theorem C02_network_no_deadlock : forall (ans : Type) (join : list ans -> ans) (N : nat) st,
+  Network.Inv ans join N st -> Network.busy ans st ->
+  (exists n, forall own, Network.step ans join N st (Network.LProc ans n own []) <> None) \/ (exists n, Network.step ans join N st (Network.LAns ans n) <> None).
+Proof. exact Network.can_move. Qed.
+Print Assumptions C02_network_no_deadlock.
+
+Theorem C02_network_quiescent : forall (ans : Type) (join : list ans -> ans) (N : nat) ls,
+  let st := Network.run ans join N ls in
+  (forall n own, Network.step ans join N st (Network.LProc ans n own []) = None) -> (forall n, Network.step ans join N st (Network.LAns ans n) = None) ->
+  (exists own : ans, True) ->
+  forall n, Network.n_q ans st n = [] /\ Network.n_done ans st n = Network.n_arr ans st n /\ NoDup (Network.n_done ans st n).
+Proof. exact Network.quiescent_all_answered. Qed.
+Print Assumptions C02_network_quiescent.
+
+(* non-vacuity: a diamond 0 -> {1, 2} -> 3 with two requests pipelined; answers are sums.  The second request
+   overtakes nowhere: node 0 answers request 0 first although request 1's branch finished earlier. *)
+Definition c02_net_run : list (Network.lab nat) :=
+  [Network.LIn nat 0; Network.LIn nat 0;
+   Network.LProc nat 0 100 [1; 2];            (* request 0 fans out: packets 2 (to node 1) and 3 (to node 2) *)
+   Network.LProc nat 0 200 [1];               (* request 1 goes to node 1 only: packet 4 *)
+   Network.LProc nat 1 10 [3]; Network.LProc nat 1 11 [];   (* node 1: packet 2 -> packet 5 to node 3; packet 4 answered by itself *)
+   Network.LProc nat 2 20 [3];                (* node 2: packet 3 -> packet 6 to node 3 *)
+   Network.LAns nat 1;                        (* not enabled: packet 2 waits for 5 *)
+   Network.LProc nat 3 7 []; Network.LProc nat 3 8 []; Network.LAns nat 3; Network.LAns nat 3;
+   Network.LAns nat 1; Network.LAns nat 1; Network.LAns nat 2; Network.LAns nat 0; Network.LAns nat 0].
+Example C02_ex_network :
+  let st := Network.run nat (fun l => fold_right Nat.add 0 l) 4 c02_net_run in
+  Network.n_out nat st = [(1, 11); (0, 15)] /\ Network.n_done nat st 0 = [0; 1] /\ Network.n_done nat st 1 = [2; 4] /\ Network.n_done nat st 3 = [5; 6]
+  /\ Network.n_q nat st 0 = [] /\ Network.n_q nat st 1 = [] /\ Network.n_q nat st 2 = [] /\ Network.n_q nat st 3 = [].
+Proof. vm_compute. repeat split; reflexivity. Qed.
